@@ -28,7 +28,7 @@
 EXTENDS Naturals, Sequences, FiniteSets, TLC, Json, SequencesExt, FiniteSetsExt
 
 CONSTANTS Scope,       \* "tiny" | "small" | "full" | "all" | "pick" | "ext" | "pfx" | "bad": slice of the input space enumerated by Init
-                       \* ("all" = the whole product of the slot tables, 12960 graphs: only sampled, through "pick")
+                       \* ("all" = the whole product of the slot tables, 16200 graphs: only sampled, through "pick")
           OneByOne,  \* TRUE: one node per closure step in any order (confluence); FALSE: one layer per step
           Pick,        \* Scope = "pick": set of graph indices into the whole slot product (otherwise unused)
           Mutant       \* "none" for the real design; other values are self-test mutants TLC must reject
@@ -90,8 +90,8 @@ TopOf(G, t) == IF \E e \in G.parent : e.c = t THEN TopOf(G, (CHOOSE e \in G.pare
 Tops(G) == {t \in Types(G) : ~\E e \in G.parent : e.c = t}
 FileOf(G, t) == (CHOOSE r \in G.files : r.t = TopOf(G, t)).f
 Files(G) == {r.f : r \in G.files}
-SvcFile == "sel"
-FileRank(f) == CASE f = "enums" -> 0 [] f = "common" -> 1 [] OTHER -> 2
+SvcFileOf(G, sv) == (CHOOSE r \in G.svcfiles : r.s = sv).f      \* services are declared in "sel" or in "svc2" (imports all others)
+FileRank(f) == CASE f = "enums" -> 0 [] f = "common" -> 1 [] f = "sel" -> 2 [] OTHER -> 3
 
 \* well-formed graphs ("descriptor sets protoc would accept", as far as this abstraction can say)
 WF(G) == /\ G.msgs \cap G.enums = {} /\ Types(G) \cap G.deps = {} /\ RpcNames(G) \cap (Types(G) \cup G.deps) = {}
@@ -106,6 +106,8 @@ WF(G) == /\ G.msgs \cap G.enums = {} /\ Types(G) \cap G.deps = {} /\ RpcNames(G)
          /\ {G.order[i] : i \in 1..Len(G.order)} = Svcs(G) /\ Len(G.order) = Cardinality(Svcs(G))
          /\ {r.t : r \in G.files} = Tops(G) /\ Cardinality(G.files) = Cardinality(Tops(G))
          /\ \A f \in G.fields : f.t \in Types(G) => FileRank(FileOf(G, f.m)) >= FileRank(FileOf(G, f.t))     \* no import cycle
+         /\ {r.s : r \in G.svcfiles} = Svcs(G) /\ Cardinality(G.svcfiles) = Cardinality(Svcs(G))
+         /\ \A r \in G.rpcs : \A t \in {r.inp, r.out} : t \in Types(G) => FileRank(SvcFileOf(G, r.s)) >= FileRank(FileOf(G, t))
 
 -----------------------------------------------------------------------------
 (* The input space: a parametric family of graphs.  Every slot is one      *)
@@ -124,8 +126,11 @@ CommonFields(s) ==
   \cup Opt("A", s.a1, IF s.a1 = "A" THEN "rep" ELSE "one") \cup Opt("A", s.a2, "one")
   \cup Opt("B", s.b, IF s.b = "C" THEN "map" ELSE "one") \cup Opt("C", s.c, IF s.c = "B" THEN "rep" ELSE "one")
   \cup Opt("Res", s.res, "one")
+\* "ResDup": the resource type is declared twice (legal, unusual): by its message and again by a file-level
+\* resource_definition (which lives in sel.proto, like the one of ex.com/Ghost); a reference still resolves to the message
 CommonRes == {[r |-> "ex.com/Res", m |-> "Res"], [r |-> "ex.com/Ghost", m |-> ""]}
-RefOf(s) == CASE s.ref = "Res"      -> {[m |-> "ReqL", r |-> "ex.com/Res", how |-> "type"]}
+ResOf(s) == CommonRes \cup (IF s.ref = "ResDup" THEN {[r |-> "ex.com/Res", m |-> ""]} ELSE {})
+RefOf(s) == CASE s.ref \in {"Res", "ResDup"} -> {[m |-> "ReqL", r |-> "ex.com/Res", how |-> "type"]}
               [] s.ref = "ResChild" -> {[m |-> "ReqL", r |-> "ex.com/Res", how |-> "child"]}
               [] s.ref = "Ghost"    -> {[m |-> "ReqL", r |-> "ex.com/Ghost", how |-> "type"]}
               [] OTHER              -> {}
@@ -137,7 +142,7 @@ StdGraph(s) ==
    parent |-> CommonParent,
    deps   |-> {OpT, Empty, DepT},
    fields |-> CommonFields(s) \cup {Fld("Meta", "Kind2", "one")},
-   res    |-> CommonRes,
+   res    |-> ResOf(s),
    refs   |-> RefOf(s),
    order  |-> <<"S1", "S2">>,
    rpcs   |-> {R("S1", "GetA", "ReqA", "A", "unary", "", "", ""),
@@ -156,7 +161,7 @@ ExtGraph(s, ord) ==
    parent |-> CommonParent \cup {Par("Operation.Status", "Operation")},
    deps   |-> {Empty, DepT},
    fields |-> CommonFields(s) \cup {Fld("InsReq", "Res", "one"), Fld("Operation", "Operation.Status", "one")},
-   res    |-> CommonRes,
+   res    |-> ResOf(s),
    refs   |-> RefOf(s),
    order  |-> ord,
    rpcs   |-> {R("S1", "GetA", "ReqA", "A", "unary", "", "", ""),
@@ -176,14 +181,20 @@ PfxGraph(s, ord) ==
    parent |-> CommonParent,
    deps   |-> {Empty, DepT},
    fields |-> CommonFields(s) \cup {Fld("AdmResp", "C", "one")},
-   res    |-> CommonRes,
+   res    |-> ResOf(s),
    refs   |-> RefOf(s),
    order  |-> ord,
    rpcs   |-> {R("Sv", "Get", "ReqA", "A", "unary", "", "", ""),
                R("Sv", "ListB", "ReqL", "RespL", "paged", "", "", ""),
                R("SvAdmin", "Get", "AdmReq", "AdmResp", "unary", "", "", ""),
                R("SvAdmin", "DropRes", "Res", Empty, "void", "", "", "")}]
-PfxOrders == {<<"Sv", "SvAdmin">>, <<"SvAdmin", "Sv">>}
+\* variants: declaration order of the two services x resource declared once / twice x both services in sel.proto or SvAdmin
+\* in a file of its own (svc2.proto)
+PfxVariants == {[ord |-> <<"Sv", "SvAdmin">>, ref |-> "Res",    adm |-> "sel"],
+                [ord |-> <<"SvAdmin", "Sv">>, ref |-> "ResDup", adm |-> "sel"],
+                [ord |-> <<"Sv", "SvAdmin">>, ref |-> "ResDup", adm |-> "svc2"],
+                [ord |-> <<"SvAdmin", "Sv">>, ref |-> "Res",    adm |-> "svc2"]}
+AllInSel(G) == {[s |-> x, f |-> "sel"] : x \in {r.s : r \in G.rpcs}}
 
 \* placement of the top-level types in files.  enums.proto holds the enum Kind2 (variant "enum+msg": also the message Unused,
 \* which no RPC reaches, so that the file has something to prune); common.proto holds the largest subset of {B, C, Res} that
@@ -191,10 +202,10 @@ PfxOrders == {<<"Sv", "SvAdmin">>, <<"SvAdmin", "Sv">>}
 EnumsFile(ef) == {"Kind2"} \cup (IF ef = "enum+msg" THEN {"Unused"} ELSE {})
 ClosedFile(G, S, E) == \A f \in G.fields : TopOf(G, f.m) \in S => (f.t \in G.deps \/ TopOf(G, f.t) \in S \cup E)
 CommonFile(G, E) == UNION {S \in SUBSET ({"B", "C", "Res"} \cap Types(G)) : ClosedFile(G, S, E)}
-Placed(G, ef) ==
+Placed(G, ef, sf) ==
   LET E == EnumsFile(ef)  C == CommonFile(G, E) IN
   [family |-> G.family, msgs |-> G.msgs, enums |-> G.enums, parent |-> G.parent, deps |-> G.deps, fields |-> G.fields,
-   res |-> G.res, refs |-> G.refs, order |-> G.order, rpcs |-> G.rpcs,
+   res |-> G.res, refs |-> G.refs, order |-> G.order, rpcs |-> G.rpcs, svcfiles |-> sf,
    files |-> {[f |-> "enums", t |-> x] : x \in E} \cup {[f |-> "common", t |-> x] : x \in C}
              \cup {[f |-> "sel", t |-> x] : x \in Tops(G) \ (E \cup C)}]
 
@@ -202,7 +213,7 @@ A1 == {"none", "B", "Outer", "Outer.Inner", "A"}          \* plain sharing / who
 A2 == {"none", "Kind", "Outer.Kind"}                      \* top-level enum / nested enum only (F5)
 BB == {"none", "C", "A", "Outer.Inner.Deep"}              \* chain (map field) / cycle A->B->A / deeply nested message only
 CC == {"none", "B", DepT}                                 \* cycle B->C->B / dependency package
-RF == {"none", "Res", "ResChild", "Ghost"}                \* resource reference: type / child_type / not resolvable to a message
+RF == {"none", "Res", "ResChild", "Ghost", "ResDup"}      \* resource reference: type / child_type / not resolvable to a message / declared twice
 LR == {"B", "Outer.Inner", "Meta"}                        \* LRO response type
 RS == {"none", "C", "Kind2"}                              \* what the resource message needs
 
@@ -222,18 +233,20 @@ A1s == <<"none", "B", "Outer", "Outer.Inner", "A">>
 A2s == <<"none", "Kind", "Outer.Kind">>
 BBs == <<"none", "C", "A", "Outer.Inner.Deep">>
 CCs == <<"none", "B", DepT>>
-RFs == <<"none", "Res", "ResChild", "Ghost">>
+RFs == <<"none", "Res", "ResChild", "Ghost", "ResDup">>
 LRs == <<"B", "Outer.Inner", "Meta">>
 RSs == <<"none", "C", "Kind2">>
 EFs == <<"enum", "enum+msg">>
-FullSize == 5 * 3 * 4 * 3 * 4 * 3 * 3 * 2
+FullSize == 5 * 3 * 4 * 3 * 5 * 3 * 3 * 2
 PickSlots(i) == [a1 |-> A1s[(i % 5) + 1], a2 |-> A2s[((i \div 5) % 3) + 1], b |-> BBs[((i \div 15) % 4) + 1],
-                 c |-> CCs[((i \div 60) % 3) + 1], ref |-> RFs[((i \div 180) % 4) + 1], lro |-> LRs[((i \div 720) % 3) + 1],
-                 res |-> RSs[((i \div 2160) % 3) + 1], ef |-> EFs[((i \div 6480) % 2) + 1]]
-Graphs == CASE Scope = "ext"  -> {Placed(ExtGraph(s, o), s.ef) : s \in SlotSpace, o \in ExtOrders}
-            [] Scope = "pfx"  -> {Placed(PfxGraph(s, o), s.ef) : s \in SlotSpace, o \in PfxOrders}
-            [] Scope = "pick" -> {Placed(StdGraph(PickSlots(i % FullSize)), PickSlots(i % FullSize).ef) : i \in Pick}
-            [] OTHER          -> {Placed(StdGraph(s), s.ef) : s \in SlotSpace}
+                 c |-> CCs[((i \div 60) % 3) + 1], ref |-> RFs[((i \div 180) % 5) + 1], lro |-> LRs[((i \div 900) % 3) + 1],
+                 res |-> RSs[((i \div 2700) % 3) + 1], ef |-> EFs[((i \div 8100) % 2) + 1]]
+Std(s) == LET G == StdGraph(s) IN Placed(G, s.ef, AllInSel(G))
+Graphs == CASE Scope = "ext"  -> {LET G == ExtGraph(s, o) IN Placed(G, s.ef, AllInSel(G)) : s \in SlotSpace, o \in ExtOrders}
+            [] Scope = "pfx"  -> {LET G == PfxGraph([s EXCEPT !.ref = v.ref], v.ord) IN
+                                  Placed(G, s.ef, {[s |-> "Sv", f |-> "sel"], [s |-> "SvAdmin", f |-> v.adm]}) : s \in SlotSpace, v \in PfxVariants}
+            [] Scope = "pick" -> {Std(PickSlots(i % FullSize)) : i \in Pick}
+            [] OTHER          -> {Std(s) : s \in SlotSpace}
 
 \* settings: the service YAML holds a LIST of library_settings entries (blocks), each for one version and listing methods.
 \* One record per listed method: [blk: position of its block in the list, ver: version of the block, pkg: version prefix
@@ -355,7 +368,7 @@ CallOK(n, underscored, same) == n \in MustBehave /\ (underscored <=> CallName(n)
 \* a types module per proto file: a file that keeps at least one message OR enum must be emitted (the modules of the kept
 \* types that refer to it import it); a file that keeps nothing is not emitted (the file of the services may be)
 ReqFiles  == IF Mutant = "files_ignore_enums" THEN {FileOf(g, t) : t \in Required \cap g.msgs} ELSE {FileOf(g, t) : t \in Required}
-PermFiles == {FileOf(g, t) : t \in Permitted} \cup (IF KeptSvcs # {} THEN {SvcFile} ELSE {})
+PermFiles == {FileOf(g, t) : t \in Permitted} \cup {SvcFileOf(g, sv) : sv \in KeptSvcs}
 
 \* verdict predicates, applied to observations by SelectiveTrace
 FilesOK(F)     == ReqFiles \subseteq F /\ F \subseteq PermFiles
